@@ -211,6 +211,11 @@ func (w *Wallet) txToOutputs(outputs []*wire.TxOut,
 				eligibleSelectedUtxo = append(
 					eligibleSelectedUtxo, e,
 				)
+
+				// An outpoint can only be spent once per
+				// transaction, so a repeated selection of the
+				// same outpoint is no longer eligible.
+				delete(eligibleByOutpoint, outpoint)
 			}
 
 			inputSource = constantInputSource(eligibleSelectedUtxo)
